@@ -1382,6 +1382,15 @@ def _main(ck, pools):
                          "reproduced); the proposal given s is renormalised by P(inside | u, s), which the Student-t correction ignores - the mechanism TLC refutes on the "
                          f"lattice (Kernel.tla). Simulation of the real runner, flat target, hard walls: edge bins {s_h['edge_z']} sigma below the target",
                          {"simulation_tpcn_hard": s_h, "impl_redraw_behaviours_reproduced": cnt["redraws"]})
+    # ---- system level (PSRunTrace.tla): runs whose first positive temperature is tiny (2^-14 < 1e-4).  The kernel must be what moves the
+    # particles at EVERY positive temperature (clause MP_OnlyAtZero); the other clauses of these traces belong to other properties.
+    from vlib import sysrun
+
+    sjobs = [{"conf": dict(c, n_particles=8, target="needle"), "seed": 300 + i + ck.seed, "label": f"needle#{i}", "n_total": 16}
+             for i, c in enumerate([dict(clustering=False), dict(clustering=False, sample="rwm", resample="syst")] + ([] if quick else [dict(clustering=True, n_particles=16), dict(volume_variation=0.5, clustering=False)]))]
+    sc, straces = sysrun.system_part(ck, "C03", sjobs, lambda t: (t["meta"]["label"], t["meta"]["seed"]) if any(e["ev"] == "MutateEnd" for e in t["events"]) else None)
+    ex_a["system_runs_tiny_first_temperature"] = sc["system_runs"]
+    ex_a["system_events_validated"] = sc["system_events_validated"]
     if LOST and not ck.violations:
         for w in LOST[:5]:
             print(f"INCONCLUSIVE property=C03 binding lost: {w}", flush=True)
